@@ -375,3 +375,15 @@ Proof.
     rewrite Hp. destruct (IH x Hep Hrs) as [Hps Hall].
     split; [now rewrite Hps, Hone|]. constructor; [split; assumption|exact Hall].
 Qed.
+
+(* the WSGI environ of every request of a connection is that of the request alone *)
+Theorem serve_many_builds o host port : forall rs x, wf_endpoint host port = true ->
+  forallb wf_request rs = true ->
+  serve_many o (List.length rs) (flat_map (build host port) rs ++ x)
+  = map (fun r => Ok (build_environ (parsed_of host port r))) rs.
+Proof.
+  intros rs x Hep H. unfold serve_many.
+  destruct (parse_many_builds o host port rs x Hep H) as [Hpm Hall]. rewrite Hpm, map_map.
+  apply map_ext_in. intros r Hin. rewrite Forall_forall in Hall. destruct (Hall r Hin) as [Hp _].
+  now rewrite Hp.
+Qed.
